@@ -25,6 +25,10 @@ def atomic_calls(b):
 def run(ctx):
     F = ctx.facts("dbg")
     VISITS = ("visit_counters", "visit_gauges", "visit_histograms")
+    # walks that may remove what they visit: never part of a readout (a handle given out earlier keeps pointing at an evicted cell,
+    # which no later readout visits - increments made through it are reported nowhere)
+    EVICTING = ("retain_counters", "retain_gauges", "retain_histograms", "clear", "clear_counters", "clear_gauges", "clear_histograms",
+                "delete_counter", "delete_gauge", "delete_histogram")
 
     def visit_sites(b):
         """registry walks of a readout body: [(block of b where the walk runs, visit name, per-item closure)] - a walk written in the
@@ -42,7 +46,26 @@ def run(ctx):
                             if x.name in VISITS and closure_args(F, x):
                                 out.append((c.bb, x.name, closure_args(F, x)[0]))
         return out
+    n_ev = 0
+    for b in F.all_bodies(MR):
+        if b.name != "readout" and not any(pb.name == "readout" for pb in [b]):
+            continue
+        units = [b] + [hb for c in b.calls() for hb in local_callee_bodies(F, c) if hb.crate == MR and hb.kind != "Closure" and hb.name != "readout"]
+        for u in units:
+            for c in u.calls():
+                if "registry" in (c.def_ or "").lower() or "Registry" in (c.self_ty or "") + (c.def_ or ""):
+                    n_ev += 1
+                    ctx.check(c.name not in EVICTING, "R20.1", fnkey(b) + "#readout-never-evicts@" + c.name, loc(u, c.bb),
+                              "the readout walks the registry with `%s`, which can remove the cells it visits: a handle obtained before that readout "
+                              "keeps updating the removed cell, and those updates appear in no later readout" % c.name,
+                              "registry accessed with %s" % c.name)
+    ctx.floor("R20.1", "registry accesses of the readout implementations", n_ev, 3)
     readouts = [b for b in F.all_bodies(MR) if b.name == "readout" and any(n == "visit_counters" for _, n, _ in visit_sites(b))]
+    if not readouts:
+        # a readout that walks the counters with an evicting walk is reported above; do not report the same thing as a lost anchor too
+        readouts_ev = [b for b in F.all_bodies(MR) if b.name == "readout" and any(c.name in EVICTING for c in b.calls())]
+        if readouts_ev:
+            return EXPL
     ctx.floor("R20.1", "readout implementations visiting the registry", len(readouts), 1)
     for b in readouts:
         key = fnkey(b)
